@@ -1,6 +1,6 @@
 ---------------------------- MODULE Conf_Twofish ----------------------------
 EXTENDS Twofish, Json, IOUtils
-VARIABLES l, inst
+VARIABLES tpos, inst
 Rec == ndJsonDeserialize(IOEnv.TRACE)
 OSched(t, k, x) == TwofishSched(t, k, x)
 OEnc(ks, b) == TwofishEnc(ks, b)
